@@ -244,6 +244,8 @@ def build_streams(rng, tier):
         Stream("k-local", kl, hg, oracle_klocal, tag=tag),
         Stream("k-local-after-in-place-edits-of-handed-out-strings", [f"pol {j} {l}" for j, l in enumerate(kl[:200 if th else 60]) if l.startswith("klocal")],
                polluted_klocal, lambda l, o: oracle_klocal(l.split(" ", 2)[2], o), model=False, tag=lambda l, o: "polluted:" + tag(l, o)),
+        Stream("k-local:generators-in-sparse-notation", gen_sparse_klocal(rng, 1500 if th else 400), sparse_klocal_handle, sparse_klocal_oracle,
+               model=False, tag=lambda l, o: "sparse-klocal:" + tag(l, o)),
         Stream("print-after-in-place-edit", [gen_edited(rng) for _ in range(6000 if tier == "thorough" else 1500)], edited_text,
                oracle=lambda l, o: None if o == "ok" else o, model=False, tag=lambda l, o: "edited:" + ("ok" if o == "ok" else "bad")),
     ]
@@ -274,6 +276,40 @@ def polluted_klocal(line):
         return exc_name(e)
     return impl_graph.handle(rest)
 
+# ---- generator lists with members in SPARSE notation ("X_4", "Y_2Z_3", "Z_1s3"): the expansion is that of the dense strings
+# they denote (right-padded to the longest DENOTED string, not to the longest text)
+def sparse_klocal_handle(line):
+    from paulie.common.pauli_string_factory import get_pauli_string
+    _, n, gens = line.split(" ")
+    try:
+        return plist(get_pauli_string(gens.split(","), n=int(n)))
+    except Exception as e:
+        return exc_name(e)
+
+def sparse_klocal_oracle(line, out):
+    _, n, gens = line.split(" ")
+    dense = [reference(g) for g in gens.split(",")]
+    if any(d is None for d in dense):
+        return None
+    return oracle_klocal(f"klocal {n} {','.join(d or '-' for d in dense)}", out)
+
+def gen_sparse_klocal(rng, k):
+    out = []
+    for _ in range(k):
+        gens = []
+        for _ in range(rng.randint(1, 3)):
+            L = rng.randint(1, 4)
+            d = "".join(rng.choice("IXYZ") for _ in range(L))
+            items = "".join(f"{ch}_{i + 1}" for i, ch in enumerate(d) if ch != "I")
+            r = rng.random()
+            if r < 0.4 or not items: gens.append(d)
+            elif r < 0.7: gens.append(items)
+            else: gens.append(items + f"s{L + rng.randint(0, 1)}")
+        dense = [reference(g) or "" for g in gens]
+        m = max(len(x) for x in dense)
+        out.append(f"sklocal {rng.choice([m, m + 1, m + 2, m + 3])} {','.join(gens)}")
+    return out
+
 def main(tier):
     return standard_main(PID, tier, "proof", THEOREMS, IMPORTS, build_streams, known_match=known_match, rule=RULE,
         assumptions=["Python int() is modelled (Unicode Nd digit blocks, strip set, sign, underscores, 4300-digit limit); the tables are "
@@ -285,6 +321,10 @@ def replay(path):
     line = r.get("line")
     if line.startswith("pol "):
         out = polluted_klocal(line); why = oracle_klocal(line.split(" ", 2)[2], out)
+        print("line:", line); print("implementation:", out); print("oracle:", why or "holds")
+        return 1 if why else 0
+    if line.startswith("sklocal "):
+        out = sparse_klocal_handle(line); why = sparse_klocal_oracle(line, out)
         print("line:", line); print("implementation:", out); print("oracle:", why or "holds")
         return 1 if why else 0
     if line.startswith("edtext "):
